@@ -39,7 +39,7 @@ inductive PJ where
   | push (v : Nat)              -- push the output, take the consumer's waker
   | regNsc                      -- Pending: re-check `closed`, register `notify_stream_closed`
   | closeOut                    -- None: `closed = true`, take the consumer's waker
-  | clearing                    -- `*poll_fn = None`: the input stream and the closure are destroyed, then the slot is released
+  | clearing                    -- the poll function returned false: about to lock the slot for `*poll_fn = None`
   deriving DecidableEq, Repr, Inhabited
 
 structure PState where
@@ -51,14 +51,16 @@ structure PState where
   outAlive : Bool               -- the output stream has not been dropped
   dropping : Bool               -- PipeStream::drop holds the core lock
   jobHasCore : Bool             -- the running poll operation upgraded its weak core reference
+  jobHoldsFn : Bool             -- the running poll operation's future shares the input stream and the closure
   pollFn : Bool                 -- PipeContext.poll_fn is Some
   wakers : List Bool            -- PipeWaker id -> still holds its context ("armed")
   pendingWakes : List Nat       -- PipeWakers whose wake() has been called and has not yet taken the context
   polling : Nat                 -- PipeContext::poll calls in progress
   scheduled : Nat               -- poll operations accepted by the target and not yet started
   job : Option (PJ × Nat)       -- the running poll operation and its PipeWaker id
-  chuteFn : Bool                -- a poll function taken by the dead-target path waits on the disposal queue
+  chuteFn : Bool                -- a poll function taken by the dead-target path is owned by a closure on the disposal queue
   ctxFreed : Bool               -- the context lost its last owner
+  targetGone : Bool             -- PipeContext::poll found the target Desync gone
   onDropQueued : Bool           -- the output stream's on_drop closure waits on the disposal queue
   strongHeld : Bool             -- the strong target reference kept by the output stream
   consumerWaiting : Bool
@@ -77,10 +79,10 @@ structure PState where
 def initP (through : Bool) (depth : Nat) : PState :=
   { through := through, inq := [], inClosed := false, inWaker := none,
     core := { pending := [], closed := false, notify := false, nsc := none, bp := none, depth := depth },
-    outAlive := through, dropping := false, jobHasCore := false, pollFn := true, wakers := [], pendingWakes := [],
+    outAlive := through, dropping := false, jobHasCore := false, jobHoldsFn := false, pollFn := true, wakers := [], pendingWakes := [],
     polling := 0,
     scheduled := 1,   -- pipe()/pipe_in() trigger the initial poll themselves
-    job := none, chuteFn := false, ctxFreed := false, onDropQueued := false, strongHeld := through,
+    job := none, chuteFn := false, ctxFreed := false, targetGone := false, onDropQueued := false, strongHeld := through,
     consumerWaiting := false, consumerWoken := false,
     sent := [], yielded := [], processed := [], pushed := [], delivered := [],
     streamDropped := false, fnDropped := false, ended := false }
@@ -96,8 +98,10 @@ inductive Label where
   | inPending | inEnd           -- the input stream returned Pending / Ready(None)
   | yield (v : Nat)             -- the input stream yields item v to the poll function
   | item (v : Nat)              -- the processing closure is invoked on v
-  | streamDrop | fnDrop         -- destructors of the input stream and of the processing closure
-  | clearFn                     -- end of `*poll_fn = None`
+  | clearFn                     -- `*poll_fn = None` after the poll function returned false
+  | chuteRun                    -- the disposal closure of the dead-target path runs and lets go of the poll function
+  | ctxFree                     -- the last owner of the context has gone: the context lets go of the poll function
+  | streamDrop | fnDrop         -- destructors of the input stream and of the processing closure (no owner is left)
   | cons                        -- the consumer's poll_next critical section
   | taskWake                    -- the consumer's waker is invoked
   | dropLock                    -- PipeStream::drop takes the core lock and does its work
@@ -135,8 +139,8 @@ def trigger (s : PState) (w : Option Nat) : PState :=
 
 /-- the poll function returned `keep` -/
 def fin (s : PState) (keep : Bool) (k : Nat) : PState :=
-  if keep then { s with job := none, jobHasCore := false }
-  else { s with job := some (.clearing, k), jobHasCore := false }
+  if keep then { s with job := none, jobHasCore := false, jobHoldsFn := false }
+  else { s with job := some (.clearing, k), jobHasCore := false, jobHoldsFn := false }
 
 def step (s : PState) : Label → Option PState
   | .send v =>
@@ -160,8 +164,8 @@ def step (s : PState) : Label → Option PState
       if s.polling = 0 then none else some { s with polling := s.polling - 1, scheduled := s.scheduled + 1 }
   | .ctxDead =>
       if s.polling = 0 then none else
-      if s.pollFn then some { s with polling := s.polling - 1, pollFn := false, chuteFn := true }
-      else some { s with polling := s.polling - 1 }
+      if s.pollFn then some { s with polling := s.polling - 1, pollFn := false, chuteFn := true, targetGone := true }
+      else some { s with polling := s.polling - 1, targetGone := true }
   | .jobBegin =>
       match s.job with
       | some _ => none
@@ -171,9 +175,9 @@ def step (s : PState) : Label → Option PState
         let s1 := { s with scheduled := s.scheduled - 1, wakers := s.wakers ++ [true] }
         if !s.pollFn then some s1      -- nothing to poll any more
         else if s.through then
-          if s.outAlive then some { s1 with job := some (.checkFull, k), jobHasCore := true }
+          if s.outAlive then some { s1 with job := some (.checkFull, k), jobHasCore := true, jobHoldsFn := true }
           else some { s1 with job := some (.clearing, k) }     -- the stream core has been released: return false
-        else some { s1 with job := some (.pollInput, k) }
+        else some { s1 with job := some (.pollInput, k), jobHoldsFn := true }
   | .prod =>
       match s.job with
       | some (.checkFull, k) =>
@@ -220,28 +224,16 @@ def step (s : PState) : Label → Option PState
         if v' ≠ v then none else
         some { s with processed := s.processed ++ [v], job := some (if s.through then .push v else .pollInput, k) }
       | _ => none
-  | .streamDrop =>
-      if s.streamDropped then none else
-      match s.job with
-      | some (.clearing, _) => some { s with streamDropped := true }
-      | some _ => none
-      | none =>
-        if s.chuteFn ∨ s.ctxFreed then some { s with streamDropped := true, chuteFn := s.chuteFn && !s.fnDropped }
-        else if s.pollFn ∧ !ctxRefs s then some { s with streamDropped := true, pollFn := false, ctxFreed := true }
-        else none
-  | .fnDrop =>
-      if s.fnDropped then none else
-      match s.job with
-      | some (.clearing, _) => some { s with fnDropped := true }
-      | some _ => none
-      | none =>
-        if s.chuteFn ∨ s.ctxFreed then some { s with fnDropped := true, chuteFn := s.chuteFn && !s.streamDropped }
-        else if s.pollFn ∧ !ctxRefs s then some { s with fnDropped := true, pollFn := false, ctxFreed := true }
-        else none
   | .clearFn =>
       match s.job with
-      | some (.clearing, _) => if s.streamDropped ∧ s.fnDropped then some { s with pollFn := false, job := none } else none
+      | some (.clearing, _) => some { s with pollFn := false, job := none }
       | _ => none
+  | .chuteRun => if s.chuteFn then some { s with chuteFn := false } else none
+  | .ctxFree => if s.pollFn ∧ !ctxRefs s then some { s with pollFn := false, ctxFreed := true } else none
+  | .streamDrop =>
+      if !s.streamDropped ∧ !s.pollFn ∧ !s.jobHoldsFn ∧ !s.chuteFn then some { s with streamDropped := true } else none
+  | .fnDrop =>
+      if !s.fnDropped ∧ !s.pollFn ∧ !s.jobHoldsFn ∧ !s.chuteFn then some { s with fnDropped := true } else none
   | .cons =>
       if !s.outAlive ∨ s.dropping then none else
       match s.core.pending with
@@ -261,6 +253,15 @@ def step (s : PState) : Label → Option PState
   | .dropDone => if s.dropping then some { s with dropping := false, outAlive := false } else none
   | .dispose => if s.onDropQueued then some { s with onDropQueued := false, strongHeld := false } else none
   | .setDepth n => if !s.outAlive ∨ s.dropping then none else some { s with core := { s.core with depth := n } }
+
+/-- the steps the pipe takes by itself; the others (`send`, `close`, `cons`, `taskWake`, `dropLock`, `setDepth`)
+are its environment: the input's producer and the consumer of the output stream -/
+def internal : Label → Bool
+  | .send _ | .close | .cons | .taskWake | .dropLock | .setDepth _ => false
+  | _ => true
+
+/-- nothing the pipe does by itself is enabled -/
+def Stuck (s : PState) : Prop := ∀ l, internal l = true → step s l = none
 
 inductive Reachable : PState → Prop where
   | init (through : Bool) (depth : Nat) : Reachable (initP through depth)
